@@ -109,6 +109,10 @@ class Run:
         if kind:
             cmd += ["-kind", kind]
         env = dict(os.environ, GOMAXPROCS="4", GOMEMLIMIT="6GiB")
+        if harness.endswith("-race"):
+            rl = os.path.join(self.work, "racelog-%s-%d" % (kind or "all", idx))
+            env["VERIF_RACELOG"] = rl
+            env["GORACE"] = "log_path=%s halt_on_error=0 exitcode=0" % rl
         try:
             p = subprocess.run(cmd, env=env, stdout=subprocess.PIPE, stderr=subprocess.STDOUT, text=True, timeout=900)
         except subprocess.TimeoutExpired:
